@@ -99,6 +99,7 @@ class Durq():
         Performs equivalent operation on durable .sdb at .key if any
 
         """
+        vals = tuple(vals)  # one-shot iterable must survive empty and type checks below
         if not vals:
             return False
 
